@@ -341,6 +341,37 @@ func C19(c *fw.Ctx) {
 			}
 		}
 	}
+	// ---- (3d) how the text ends: a clean program followed by every ending of a pool (nothing, blanks, line
+	// ends of three kinds, comments of both kinds with and without a final line end): status 0, the
+	// output, empty stderr
+	{
+		endings := []string{"", "\n", " ", "\t", "\r\n", "\r", "\n\n", "//c", "//c\n", "//", "/*c*/", "/*c*/\n", "/**/", "/* a\n b */", "/***/", " /* c */ ", "// /* c", "/*c*/ //d", "/* // */"}
+		for _, body := range []string{model.KwPrint + " \"ok\";", model.KwVar + " v = 1; " + model.KwPrint + " \"ok\";", "{ " + model.KwPrint + " \"ok\"; }"} {
+			for _, e := range endings {
+				for _, sep := range []string{"", "\n"} {
+					if !c.Mine() {
+						continue
+					}
+					src := body + sep + e
+					o := h.RunFile(src, h.Opts{})
+					c.Eval(src, true)
+					c.R.States++
+					base := fw.Replay{Mode: "file", Program: src, CLI: true, InStdout: o.Stdout, InStderr: o.Stderr, InStatus: o.Status}
+					if abnormal(c, o, "file", src, base) {
+						continue
+					}
+					if o.Stdout != "ok\n" || o.Status != 0 || o.Stderr != "" {
+						r := base
+						r.Sig = "C19|clean-program|ending"
+						r.What = "a clean program must exit 0 with empty stderr however its text ends"
+						r.Expected = "stdout \"ok\\n\" status 0, empty stderr"
+						r.Observed = fmt.Sprintf("ending %q: stdout %q status %d stderr %q", e, o.Stdout, o.Status, trunc(o.Stderr, 200))
+						c.Violate(r)
+					}
+				}
+			}
+		}
+	}
 	// ---- (3c) calls with n arguments (n across every power of two up to 2^11, and 250..260): a program
 	// that is derivable and valid runs, prints and exits 0; the same call in a function that is never called
 	{
